@@ -249,3 +249,11 @@ Theorem C07_prune_without_arguments_after_compute :
     = ((0, (n, m)), compute shape (AdjGrid per) vals minv cs).
 Proof. exact prune_call_without_arguments_after_compute. Qed.
 Print Assumptions C07_prune_without_arguments_after_compute.
+
+From Dendro Require Import Grid.
+Theorem C07_prune_no_stricter_than_compute_user_adjacency :
+  forall shape tb vals minv cs cs0,
+    (forall a b, In b (nbrs_custom tb a) -> In a (nbrs_custom tb b)) -> laxer_after cs cs0 ->
+    prune_struct cs (compute shape (AdjCustom tb) vals minv cs0) = compute shape (AdjCustom tb) vals minv cs0.
+Proof. exact custom_prune_laxer. Qed.
+Print Assumptions C07_prune_no_stricter_than_compute_user_adjacency.
